@@ -871,6 +871,43 @@ func ruleCacheAgree(c *RC) *RuleResult {
 			r.unresolved("call of the cache writer in OnReceive")
 		}
 	}
+	// a payload of a FUTURE height reaches the cache whoever sent it: the validator list of the height the node is at says
+	// nothing about the next height's (the list may grow), so no test against it may drop such a payload; its sender
+	// index is judged when the payload is replayed at its own height
+	if or := c.API["OnReceive"]; or != nil && len(or.Params) == 1 && writer != nil {
+		pm := mkTerm(KParam, or.Params[0].Name())
+		pm.NonNil = true
+		h := getter("ConsensusPayload", "Height", pm, true)
+		bi := fld("ctx.BlockIndex", true)
+		init := newState()
+		init.F.add(Lit{mkAtom("lt", bi, h), true})
+		r.Sites++
+		n, bad := 0, ""
+		for _, e := range c.exitsFrom(or, init, false) {
+			n++
+			if e.Events["fn:"+writer.Name] {
+				continue
+			}
+			// the only other way out: the payload has no body at all
+			body := false
+			for _, l := range e.TrailL {
+				if l.A.Op == "nn" && strings.Contains(l.A.A.S, ".Payload(") && !l.Pos {
+					body = true
+				}
+			}
+			if !body {
+				bad = "{" + strings.Join(e.Trail, "; ") + "}"
+			}
+		}
+		switch {
+		case n == 0:
+			r.unresolved("paths of OnReceive for a payload of a future height")
+		case bad == "":
+			r.ok(fmt.Sprintf("OnReceive: a payload of a future height is cached on each of %d paths (whatever its sender index)", n))
+		default:
+			r.fail(or.Name+"/future-height-dropped", c.Prog.Pos(or.Decl), "a payload of a future height is dropped instead of cached on path "+bad+": a test against the CURRENT height's validator list decides about a payload of another height (when the list grows, the early payloads of the new validators - possibly the next primary's proposal - are lost)")
+		}
+	}
 	var bs []string
 	for b := range buckets {
 		bs = append(bs, b)
